@@ -7,157 +7,225 @@
 (* lastPassedTime.  Every request carries its OWN batch Bt[c] and its OWN  *)
 (* threshold Th[c] = <<n, d>> (the threshold is an argument of each check: *)
 (* MemoryAdaptive / WarmUp rules hand a different one from call to call),  *)
-(* the spacing it owes is IvOwn(c) = ceil(Bt[c] * SI / Th[c]) ticks.       *)
+(* the spacing it owes is ceil(Bt[c] * si / threshold) ticks.              *)
+(*                                                                         *)
+(* THE RULE IS REPLACED UNDER TRAFFIC: the parameters of the rule in force *)
+(* - statistic interval si, maximum queueing time mq and a factor tm on    *)
+(* the threshold - are STATE (`rule'), replaced by the loader process      *)
+(* (flow.LoadRules / LoadRulesOfResource: action `reload', the k-th reload *)
+(* loads Reloads[k]) at any point between the atomic steps of the callers. *)
+(* A request takes the rule in force and the checker in use at its arrival *)
+(* (the flow slot fetches the controller list once) and finishes on that   *)
+(* checker even if a reload happens while it is in flight.  A reload that  *)
+(* changes a parameter builds a new checker (lastPassedTime = never) with  *)
+(* the new parameters; a reload that changes nothing keeps the checker and *)
+(* its queue position.  `ep' counts the reloads: requests record the epoch *)
+(* and the parameters in force at their arrival, the invariants (operators *)
+(* of ThrottleProp) hold every request to exactly those.                   *)
 (***************************************************************************)
 EXTENDS ThrottleProp, Sequences, TLC
 
 CONSTANTS NC,
           Bt,         \* Bt[c]: batch count of caller c's request (0 = passes without pacing)
-          Th,         \* Th[c] = <<n, d>>: threshold n/d in force for caller c's request
-          SI,         \* statistic interval in ticks
-          MaxQ, MaxT,
+          Th,         \* Th[c] = <<n, d>>: threshold n/d handed to the check of caller c's request (times rule.tm)
+          SI,         \* statistic interval in ticks of the rule loaded first
+          MaxQ,       \* maximum queueing time in ticks of the rule loaded first
+          MaxT,
           Last0,      \* initial lastPassedTime (0 = never passed)
           CasLoop,    \* TRUE: every update of lastPassedTime is a compare-and-swap from the value the decision was
                       \* based on, retried on loss (code after "fix: update lastPassedTime by compare-and-swap only");
                       \* FALSE: pinned code (idle branch CAS falling through to load / add / roll-back by subtraction),
                       \* kept as a spec-level mutant whose counterexamples are replayed on the real code
-          PerCall     \* TRUE: the spacing is computed from the threshold of the request being checked;
-                      \* FALSE: spec-level mutant - the per-token interval SI / threshold is derived once, from the first
+          PerCall,    \* TRUE: the spacing is computed from the threshold of the request being checked;
+                      \* FALSE: spec-level mutant - the per-token interval si / threshold is derived once, from the first
                       \* request that reaches the pacing decision, and reused for every later request of the checker
+          Reloads,    \* sequence of rule parameters [si, mq, tm]: what the k-th reload loads (<< >>: the rule is never replaced)
+          Stale       \* "none": a reload that changes any parameter replaces the checker;
+                      \* "si" / "mq" / "tm": spec-level mutants - a reload that differs from the rule bound to the checker
+                      \* in use ONLY in that parameter is taken for "unchanged": the old checker (and the old rule bound to
+                      \* it) stays in force
 Callers == 1..NC
-IvOwn(c)  == Owed(Bt[c], Th[c][1], Th[c][2], SI)
-BigC(c)   == Th[c][1] <= 0 \/ Bt[c] * Th[c][2] > Th[c][1]
+NR      == Len(Reloads)
+Loaders == IF NR > 0 THEN {-1} ELSE {}
+Rule0   == [si |-> SI, mq |-> MaxQ, tm |-> <<1, 1>>]
+\* threshold of caller c's request under rule parameters p
+EffTh(c, p) == <<Th[c][1] * p.tm[1], Th[c][2] * p.tm[2]>>
+IvOwn(c, p) == Owed(Bt[c], EffTh(c, p)[1], EffTh(c, p)[2], p.si)
+BigC(c, p)  == EffTh(c, p)[1] <= 0 \/ Bt[c] * EffTh(c, p)[2] > EffTh(c, p)[1]
+\* the spacing a checker built with parameters p applies to caller c's request (fr: mutant PerCall = FALSE only)
+IvOf(c, p, fr) == IF PerCall THEN IvOwn(c, p) ELSE Owed(Bt[c], fr[1], fr[2], p.si)
+\* does loading parameters new replace a checker whose bound rule has parameters old ?
+SameBut(a, b, f) == \A x \in {"si", "mq", "tm"} \ {f} : a[x] = b[x]
+Rebuilds(new, old) == new # old /\ ~(Stale # "none" /\ SameBut(new, old, Stale))
 \* the request that stands for an initial lastPassedTime > 0 (batch 1 at threshold SI: spacing 1)
-Setup     == [id |-> 0, arr |-> Last0, b |-> 1, tn |-> SI, td |-> 1, res |-> "pass", w |-> 0, inv |-> 0, ret |-> 0]
+Setup     == [id |-> 0, arr |-> Last0, b |-> 1, tn |-> SI, td |-> 1, si |-> SI, mq |-> MaxQ, g |-> 0,
+              res |-> "pass", w |-> 0, inv |-> 0, ret |-> 0]
 
 (* --algorithm Throttle {
-variables last = IF Last0 > 0 THEN Last0 ELSE -1000,    \* 0 = never passed: the epoch is far in the past
+variables last = [x \in 0..NR |-> IF x = 0 /\ Last0 > 0 THEN Last0 ELSE -1000],  \* lastPassedTime of the checker built in
+                                                    \* epoch x; 0 = never passed: the epoch is far in the past
           now = 1, seq = 0,
           \* an initial lastPassedTime > 0 stands for an earlier request that passed at that instant
           reqs = IF Last0 > 0 THEN {Setup} ELSE {},
-          frozen = <<0, 1>>,      \* mutant PerCall = FALSE only: threshold of the first paced request
+          frozen = [x \in 0..NR |-> <<0, 1>>],    \* mutant PerCall = FALSE only: threshold of the first paced request
+          ep = 0,             \* epoch: number of reloads so far
+          rule = Rule0,       \* parameters of the rule in force (what was loaded last)
+          ck = 0,             \* the checker in use: the epoch it was built in
+          ckp = Rule0,        \* parameters of the rule bound to the checker in use (= rule unless Stale # "none")
           sched = << >>;
 
 define {
-    SpacingInv     == Spacing(reqs, SI)
-    BoundedWaitInv == BoundedWait(reqs, MaxQ)
-    NoSpuriousInv  == NoSpuriousReject(reqs, SI, MaxQ, 0)
-    \* the spacing the checker applies to caller c's request
-    IvOf(c)        == IF PerCall THEN IvOwn(c) ELSE Owed(Bt[c], frozen[1], frozen[2], SI)
-    Rec(c, arrival, result, wait, i, r) ==
-        [id |-> c, arr |-> arrival, b |-> Bt[c], tn |-> Th[c][1], td |-> Th[c][2], res |-> result, w |-> wait, inv |-> i, ret |-> r]
+    SpacingInv     == Spacing(reqs)
+    BoundedWaitInv == BoundedWait(reqs)
+    NoSpuriousInv  == NoSpuriousReject(reqs, 0)
+    \* a request is recorded with the parameters of the rule IN FORCE at its arrival (rp), whatever the checker applied
+    Rec(c, arrival, rp, e, result, wait, i, r) ==
+        [id |-> c, arr |-> arrival, b |-> Bt[c], tn |-> EffTh(c, rp)[1], td |-> EffTh(c, rp)[2], si |-> rp.si, mq |-> rp.mq,
+         g |-> e, res |-> result, w |-> wait, inv |-> i, ret |-> r]
 }
 macro Note() { sched := Append(sched, self); }
 macro Finish(result, wait) {
     seq := seq + 1;
-    reqs := reqs \cup {Rec(self, cur, result, wait, inv, seq + 1)};
+    reqs := reqs \cup {Rec(self, cur, rp, ge, result, wait, inv, seq + 1)};
 }
 
 process (c \in Callers)
-variables cur = 0, inv = 0, loaded = 0, est = 0;
+variables cur = 0, inv = 0, loaded = 0, est = 0,
+          ge = 0, rp = Rule0,     \* epoch and rule in force at the arrival
+          k = 0, cp = Rule0;      \* the checker fetched at the arrival and the parameters it was built with
 {
-  t_start:  \* start: DoCheck is invoked; batch 0 passes, threshold <= 0 or batch > threshold rejects (both without
-            \* touching the pacing state and before the first yield point); otherwise it reads the clock
-    cur := now; Note();
-    if (Bt[self] = 0 \/ BigC(self)) {
+  t_start:  \* start: the request arrives: it takes the rule in force and the checker in use; DoCheck is invoked;
+            \* batch 0 passes, threshold <= 0 or batch > threshold rejects (both without touching the pacing state
+            \* and before the first yield point); otherwise it reads the clock
+    cur := now; ge := ep; rp := rule; k := ck; cp := ckp; Note();
+    if (Bt[self] = 0 \/ BigC(self, cp)) {
         seq := seq + 2;
-        reqs := reqs \cup {Rec(self, now, IF Bt[self] = 0 THEN "pass" ELSE "reject", 0, seq, seq + 1)};
+        reqs := reqs \cup {Rec(self, now, rp, ge, IF Bt[self] = 0 THEN "pass" ELSE "reject", 0, seq, seq + 1)};
         goto Done;
     } else {
         seq := seq + 1; inv := seq + 1;
-        if (~PerCall /\ frozen[1] = 0) { frozen := Th[self]; };
+        if (~PerCall /\ frozen[k][1] = 0) { frozen[k] := EffTh(self, cp); };
     };
   t_load1:  \* th.load1
-    loaded := last; Note();
-    if (loaded + IvOf(self) > cur) {
+    loaded := last[k]; Note();
+    if (loaded + IvOf(self, cp, frozen[k]) > cur) {
         if (CasLoop) {
-            est := loaded + IvOf(self) - cur;
-            if (est > MaxQ) { Finish("reject", 0); goto Done; } else { goto t_casq; };
+            est := loaded + IvOf(self, cp, frozen[k]) - cur;
+            if (est > cp.mq) { Finish("reject", 0); goto Done; } else { goto t_casq; };
         } else { goto t_load2; };
     };
   t_cas:    \* th.cas (idle branch: pass now)
     Note();
-    if (last = loaded) { last := cur; Finish("pass", 0); goto Done; }
+    if (last[k] = loaded) { last[k] := cur; Finish("pass", 0); goto Done; }
     else if (CasLoop) { goto t_load1; }
     else { goto t_load2; };
   t_casq:   \* th.cas (queueing branch of the fixed code: reserve the slot loaded + interval)
     Note();
-    if (last = loaded) { last := loaded + IvOf(self); Finish("pass", est); goto Done; } else { goto t_load1; };
+    if (last[k] = loaded) { last[k] := loaded + IvOf(self, cp, frozen[k]); Finish("pass", est); goto Done; } else { goto t_load1; };
   t_load2:  \* th.load2 (pinned code)
-    est := last + IvOf(self) - cur; Note();
-    if (est > MaxQ) { Finish("reject", 0); goto Done; };
+    est := last[k] + IvOf(self, cp, frozen[k]) - cur; Note();
+    if (est > cp.mq) { Finish("reject", 0); goto Done; };
   t_add:    \* th.add (pinned code)
-    last := last + IvOf(self); est := last - cur; Note();   \* (reads of `last' after the assignment see the new value)
-    if (est <= MaxQ) { Finish("pass", IF est > 0 THEN est ELSE 0); goto Done; };
+    last[k] := last[k] + IvOf(self, cp, frozen[k]); est := last[k] - cur; Note();   \* (reads of `last' after the assignment see the new value)
+    if (est <= cp.mq) { Finish("pass", IF est > 0 THEN est ELSE 0); goto Done; };
   t_sub:    \* th.sub (pinned code)
-    last := last - IvOf(self); Note(); Finish("reject", 0);
+    last[k] := last[k] - IvOf(self, cp, frozen[k]); Note(); Finish("reject", 0);
 }
 
 process (clock = 0)
 {
   tick: while (now < MaxT) { now := now + 1; sched := Append(sched, 0); }
 }
+
+process (loader \in Loaders)
+variables n = 1;
+{
+  reload:   \* flow.LoadRules / LoadRulesOfResource with the rule Reloads[n] (atomic for the callers: the rule table is
+            \* swapped under its lock).  Requests in flight keep the checker they fetched.
+    while (n <= NR) {
+        ep := ep + 1; rule := Reloads[n];
+        if (Rebuilds(Reloads[n], ckp)) { ck := ep; ckp := Reloads[n]; };
+        sched := Append(sched, -1);
+        n := n + 1;
+    }
+}
 } *)
 \* BEGIN TRANSLATION
-VARIABLES pc, last, now, seq, reqs, frozen, sched
+VARIABLES pc, last, now, seq, reqs, frozen, ep, rule, ck, ckp, sched
 
 (* define statement *)
-SpacingInv     == Spacing(reqs, SI)
-BoundedWaitInv == BoundedWait(reqs, MaxQ)
-NoSpuriousInv  == NoSpuriousReject(reqs, SI, MaxQ, 0)
+SpacingInv     == Spacing(reqs)
+BoundedWaitInv == BoundedWait(reqs)
+NoSpuriousInv  == NoSpuriousReject(reqs, 0)
 
-IvOf(c)        == IF PerCall THEN IvOwn(c) ELSE Owed(Bt[c], frozen[1], frozen[2], SI)
-Rec(c, arrival, result, wait, i, r) ==
-    [id |-> c, arr |-> arrival, b |-> Bt[c], tn |-> Th[c][1], td |-> Th[c][2], res |-> result, w |-> wait, inv |-> i, ret |-> r]
+Rec(c, arrival, rp, e, result, wait, i, r) ==
+    [id |-> c, arr |-> arrival, b |-> Bt[c], tn |-> EffTh(c, rp)[1], td |-> EffTh(c, rp)[2], si |-> rp.si, mq |-> rp.mq,
+     g |-> e, res |-> result, w |-> wait, inv |-> i, ret |-> r]
 
-VARIABLES cur, inv, loaded, est
+VARIABLES cur, inv, loaded, est, ge, rp, k, cp, n
 
-vars == << pc, last, now, seq, reqs, frozen, sched, cur, inv, loaded, est >>
+vars == << pc, last, now, seq, reqs, frozen, ep, rule, ck, ckp, sched, cur, 
+           inv, loaded, est, ge, rp, k, cp, n >>
 
-ProcSet == (Callers) \cup {0}
+ProcSet == (Callers) \cup {0} \cup (Loaders)
 
 Init == (* Global variables *)
-        /\ last = (IF Last0 > 0 THEN Last0 ELSE -1000)
+        /\ last = [x \in 0..NR |-> IF x = 0 /\ Last0 > 0 THEN Last0 ELSE -1000]
         /\ now = 1
         /\ seq = 0
         /\ reqs = (IF Last0 > 0 THEN {Setup} ELSE {})
-        /\ frozen = <<0, 1>>
+        /\ frozen = [x \in 0..NR |-> <<0, 1>>]
+        /\ ep = 0
+        /\ rule = Rule0
+        /\ ck = 0
+        /\ ckp = Rule0
         /\ sched = << >>
         (* Process c *)
         /\ cur = [self \in Callers |-> 0]
         /\ inv = [self \in Callers |-> 0]
         /\ loaded = [self \in Callers |-> 0]
         /\ est = [self \in Callers |-> 0]
+        /\ ge = [self \in Callers |-> 0]
+        /\ rp = [self \in Callers |-> Rule0]
+        /\ k = [self \in Callers |-> 0]
+        /\ cp = [self \in Callers |-> Rule0]
+        (* Process loader *)
+        /\ n = [self \in Loaders |-> 1]
         /\ pc = [self \in ProcSet |-> CASE self \in Callers -> "t_start"
-                                        [] self = 0 -> "tick"]
+                                        [] self = 0 -> "tick"
+                                        [] self \in Loaders -> "reload"]
 
 t_start(self) == /\ pc[self] = "t_start"
                  /\ cur' = [cur EXCEPT ![self] = now]
+                 /\ ge' = [ge EXCEPT ![self] = ep]
+                 /\ rp' = [rp EXCEPT ![self] = rule]
+                 /\ k' = [k EXCEPT ![self] = ck]
+                 /\ cp' = [cp EXCEPT ![self] = ckp]
                  /\ sched' = Append(sched, self)
-                 /\ IF Bt[self] = 0 \/ BigC(self)
+                 /\ IF Bt[self] = 0 \/ BigC(self, cp'[self])
                        THEN /\ seq' = seq + 2
-                            /\ reqs' = (reqs \cup {Rec(self, now, IF Bt[self] = 0 THEN "pass" ELSE "reject", 0, seq', seq' + 1)})
+                            /\ reqs' = (reqs \cup {Rec(self, now, rp'[self], ge'[self], IF Bt[self] = 0 THEN "pass" ELSE "reject", 0, seq', seq' + 1)})
                             /\ pc' = [pc EXCEPT ![self] = "Done"]
                             /\ UNCHANGED << frozen, inv >>
                        ELSE /\ seq' = seq + 1
                             /\ inv' = [inv EXCEPT ![self] = seq' + 1]
-                            /\ IF ~PerCall /\ frozen[1] = 0
-                                  THEN /\ frozen' = Th[self]
+                            /\ IF ~PerCall /\ frozen[k'[self]][1] = 0
+                                  THEN /\ frozen' = [frozen EXCEPT ![k'[self]] = EffTh(self, cp'[self])]
                                   ELSE /\ TRUE
                                        /\ UNCHANGED frozen
                             /\ pc' = [pc EXCEPT ![self] = "t_load1"]
                             /\ reqs' = reqs
-                 /\ UNCHANGED << last, now, loaded, est >>
+                 /\ UNCHANGED << last, now, ep, rule, ck, ckp, loaded, est, n >>
 
 t_load1(self) == /\ pc[self] = "t_load1"
-                 /\ loaded' = [loaded EXCEPT ![self] = last]
+                 /\ loaded' = [loaded EXCEPT ![self] = last[k[self]]]
                  /\ sched' = Append(sched, self)
-                 /\ IF loaded'[self] + IvOf(self) > cur[self]
+                 /\ IF loaded'[self] + IvOf(self, cp[self], frozen[k[self]]) > cur[self]
                        THEN /\ IF CasLoop
-                                  THEN /\ est' = [est EXCEPT ![self] = loaded'[self] + IvOf(self) - cur[self]]
-                                       /\ IF est'[self] > MaxQ
+                                  THEN /\ est' = [est EXCEPT ![self] = loaded'[self] + IvOf(self, cp[self], frozen[k[self]]) - cur[self]]
+                                       /\ IF est'[self] > cp[self].mq
                                              THEN /\ seq' = seq + 1
-                                                  /\ reqs' = (reqs \cup {Rec(self, cur[self], "reject", 0, inv[self], seq' + 1)})
+                                                  /\ reqs' = (reqs \cup {Rec(self, cur[self], rp[self], ge[self], "reject", 0, inv[self], seq' + 1)})
                                                   /\ pc' = [pc EXCEPT ![self] = "Done"]
                                              ELSE /\ pc' = [pc EXCEPT ![self] = "t_casq"]
                                                   /\ UNCHANGED << seq, reqs >>
@@ -165,62 +233,68 @@ t_load1(self) == /\ pc[self] = "t_load1"
                                        /\ UNCHANGED << seq, reqs, est >>
                        ELSE /\ pc' = [pc EXCEPT ![self] = "t_cas"]
                             /\ UNCHANGED << seq, reqs, est >>
-                 /\ UNCHANGED << last, now, frozen, cur, inv >>
+                 /\ UNCHANGED << last, now, frozen, ep, rule, ck, ckp, cur, 
+                                 inv, ge, rp, k, cp, n >>
 
 t_cas(self) == /\ pc[self] = "t_cas"
                /\ sched' = Append(sched, self)
-               /\ IF last = loaded[self]
-                     THEN /\ last' = cur[self]
+               /\ IF last[k[self]] = loaded[self]
+                     THEN /\ last' = [last EXCEPT ![k[self]] = cur[self]]
                           /\ seq' = seq + 1
-                          /\ reqs' = (reqs \cup {Rec(self, cur[self], "pass", 0, inv[self], seq' + 1)})
+                          /\ reqs' = (reqs \cup {Rec(self, cur[self], rp[self], ge[self], "pass", 0, inv[self], seq' + 1)})
                           /\ pc' = [pc EXCEPT ![self] = "Done"]
                      ELSE /\ IF CasLoop
                                 THEN /\ pc' = [pc EXCEPT ![self] = "t_load1"]
                                 ELSE /\ pc' = [pc EXCEPT ![self] = "t_load2"]
                           /\ UNCHANGED << last, seq, reqs >>
-               /\ UNCHANGED << now, frozen, cur, inv, loaded, est >>
+               /\ UNCHANGED << now, frozen, ep, rule, ck, ckp, cur, inv, 
+                               loaded, est, ge, rp, k, cp, n >>
 
 t_casq(self) == /\ pc[self] = "t_casq"
                 /\ sched' = Append(sched, self)
-                /\ IF last = loaded[self]
-                      THEN /\ last' = loaded[self] + IvOf(self)
+                /\ IF last[k[self]] = loaded[self]
+                      THEN /\ last' = [last EXCEPT ![k[self]] = loaded[self] + IvOf(self, cp[self], frozen[k[self]])]
                            /\ seq' = seq + 1
-                           /\ reqs' = (reqs \cup {Rec(self, cur[self], "pass", est[self], inv[self], seq' + 1)})
+                           /\ reqs' = (reqs \cup {Rec(self, cur[self], rp[self], ge[self], "pass", est[self], inv[self], seq' + 1)})
                            /\ pc' = [pc EXCEPT ![self] = "Done"]
                       ELSE /\ pc' = [pc EXCEPT ![self] = "t_load1"]
                            /\ UNCHANGED << last, seq, reqs >>
-                /\ UNCHANGED << now, frozen, cur, inv, loaded, est >>
+                /\ UNCHANGED << now, frozen, ep, rule, ck, ckp, cur, inv, 
+                                loaded, est, ge, rp, k, cp, n >>
 
 t_load2(self) == /\ pc[self] = "t_load2"
-                 /\ est' = [est EXCEPT ![self] = last + IvOf(self) - cur[self]]
+                 /\ est' = [est EXCEPT ![self] = last[k[self]] + IvOf(self, cp[self], frozen[k[self]]) - cur[self]]
                  /\ sched' = Append(sched, self)
-                 /\ IF est'[self] > MaxQ
+                 /\ IF est'[self] > cp[self].mq
                        THEN /\ seq' = seq + 1
-                            /\ reqs' = (reqs \cup {Rec(self, cur[self], "reject", 0, inv[self], seq' + 1)})
+                            /\ reqs' = (reqs \cup {Rec(self, cur[self], rp[self], ge[self], "reject", 0, inv[self], seq' + 1)})
                             /\ pc' = [pc EXCEPT ![self] = "Done"]
                        ELSE /\ pc' = [pc EXCEPT ![self] = "t_add"]
                             /\ UNCHANGED << seq, reqs >>
-                 /\ UNCHANGED << last, now, frozen, cur, inv, loaded >>
+                 /\ UNCHANGED << last, now, frozen, ep, rule, ck, ckp, cur, 
+                                 inv, loaded, ge, rp, k, cp, n >>
 
 t_add(self) == /\ pc[self] = "t_add"
-               /\ last' = last + IvOf(self)
-               /\ est' = [est EXCEPT ![self] = last' - cur[self]]
+               /\ last' = [last EXCEPT ![k[self]] = last[k[self]] + IvOf(self, cp[self], frozen[k[self]])]
+               /\ est' = [est EXCEPT ![self] = last'[k[self]] - cur[self]]
                /\ sched' = Append(sched, self)
-               /\ IF est'[self] <= MaxQ
+               /\ IF est'[self] <= cp[self].mq
                      THEN /\ seq' = seq + 1
-                          /\ reqs' = (reqs \cup {Rec(self, cur[self], "pass", (IF est'[self] > 0 THEN est'[self] ELSE 0), inv[self], seq' + 1)})
+                          /\ reqs' = (reqs \cup {Rec(self, cur[self], rp[self], ge[self], "pass", (IF est'[self] > 0 THEN est'[self] ELSE 0), inv[self], seq' + 1)})
                           /\ pc' = [pc EXCEPT ![self] = "Done"]
                      ELSE /\ pc' = [pc EXCEPT ![self] = "t_sub"]
                           /\ UNCHANGED << seq, reqs >>
-               /\ UNCHANGED << now, frozen, cur, inv, loaded >>
+               /\ UNCHANGED << now, frozen, ep, rule, ck, ckp, cur, inv, 
+                               loaded, ge, rp, k, cp, n >>
 
 t_sub(self) == /\ pc[self] = "t_sub"
-               /\ last' = last - IvOf(self)
+               /\ last' = [last EXCEPT ![k[self]] = last[k[self]] - IvOf(self, cp[self], frozen[k[self]])]
                /\ sched' = Append(sched, self)
                /\ seq' = seq + 1
-               /\ reqs' = (reqs \cup {Rec(self, cur[self], "reject", 0, inv[self], seq' + 1)})
+               /\ reqs' = (reqs \cup {Rec(self, cur[self], rp[self], ge[self], "reject", 0, inv[self], seq' + 1)})
                /\ pc' = [pc EXCEPT ![self] = "Done"]
-               /\ UNCHANGED << now, frozen, cur, inv, loaded, est >>
+               /\ UNCHANGED << now, frozen, ep, rule, ck, ckp, cur, inv, 
+                               loaded, est, ge, rp, k, cp, n >>
 
 c(self) == t_start(self) \/ t_load1(self) \/ t_cas(self) \/ t_casq(self)
               \/ t_load2(self) \/ t_add(self) \/ t_sub(self)
@@ -232,9 +306,29 @@ tick == /\ pc[0] = "tick"
                    /\ pc' = [pc EXCEPT ![0] = "tick"]
               ELSE /\ pc' = [pc EXCEPT ![0] = "Done"]
                    /\ UNCHANGED << now, sched >>
-        /\ UNCHANGED << last, seq, reqs, frozen, cur, inv, loaded, est >>
+        /\ UNCHANGED << last, seq, reqs, frozen, ep, rule, ck, ckp, cur, inv, 
+                        loaded, est, ge, rp, k, cp, n >>
 
 clock == tick
+
+reload(self) == /\ pc[self] = "reload"
+                /\ IF n[self] <= NR
+                      THEN /\ ep' = ep + 1
+                           /\ rule' = Reloads[n[self]]
+                           /\ IF Rebuilds(Reloads[n[self]], ckp)
+                                 THEN /\ ck' = ep'
+                                      /\ ckp' = Reloads[n[self]]
+                                 ELSE /\ TRUE
+                                      /\ UNCHANGED << ck, ckp >>
+                           /\ sched' = Append(sched, -1)
+                           /\ n' = [n EXCEPT ![self] = n[self] + 1]
+                           /\ pc' = [pc EXCEPT ![self] = "reload"]
+                      ELSE /\ pc' = [pc EXCEPT ![self] = "Done"]
+                           /\ UNCHANGED << ep, rule, ck, ckp, sched, n >>
+                /\ UNCHANGED << last, now, seq, reqs, frozen, cur, inv, loaded, 
+                                est, ge, rp, k, cp >>
+
+loader(self) == reload(self)
 
 (* Allow infinite stuttering to prevent deadlock on termination. *)
 Terminating == /\ \A self \in ProcSet: pc[self] = "Done"
@@ -242,6 +336,7 @@ Terminating == /\ \A self \in ProcSet: pc[self] = "Done"
 
 Next == clock
            \/ (\E self \in Callers: c(self))
+           \/ (\E self \in Loaders: loader(self))
            \/ Terminating
 
 Spec == Init /\ [][Next]_vars
